@@ -456,6 +456,11 @@ impl RainDbIterator for DatabaseIterator {
 
         let lookup_key = InternalKey::new_for_seeking(target.clone(), self.sequence_snapshot);
         self.inner_iter.seek(&lookup_key)?;
+        if let Some(seek_error) = self.inner_iter.get_error() {
+            // A child iterator could not be positioned so the merged view would be incomplete
+            self.is_valid = false;
+            return Err(seek_error);
+        }
 
         if self.inner_iter.is_valid() {
             self.find_next_client_entry(false);
@@ -472,6 +477,11 @@ impl RainDbIterator for DatabaseIterator {
         self.direction = DbIterationDirection::Forward;
         self.cached_value = None;
         self.inner_iter.seek_to_first()?;
+        if let Some(seek_error) = self.inner_iter.get_error() {
+            // A child iterator could not be positioned so the merged view would be incomplete
+            self.is_valid = false;
+            return Err(seek_error);
+        }
 
         if self.inner_iter.is_valid() {
             self.find_next_client_entry(false);
@@ -488,6 +498,11 @@ impl RainDbIterator for DatabaseIterator {
         self.direction = DbIterationDirection::Backward;
         self.cached_value = None;
         self.inner_iter.seek_to_last()?;
+        if let Some(seek_error) = self.inner_iter.get_error() {
+            // A child iterator could not be positioned so the merged view would be incomplete
+            self.is_valid = false;
+            return Err(seek_error);
+        }
         self.find_prev_client_entry();
 
         Ok(())
